@@ -5,6 +5,7 @@ mod script;
 mod pure;
 mod lock;
 mod ops;
+mod free;
 
 use std::io::Read;
 
@@ -20,7 +21,7 @@ fn main() {
     let mut input = String::new();
     let mode = args.get(1).map(|s| s.as_str()).unwrap_or("");
     match mode {
-        "seq" | "builder" | "selector" | "chanops" | "lock" => {
+        "seq" | "builder" | "selector" | "chanops" | "lock" | "free" | "free2" => {
             std::io::stdin().read_to_string(&mut input).unwrap();
         }
         _ => {}
@@ -31,6 +32,8 @@ fn main() {
         "selector" => pure::run_selector(&input),
         "chanops" => pure::run_chanops(&input),
         "lock" => lock::run_lock(&input),
+        "free" => free::run_free(&input),
+        "free2" => free::run_free2(&input),
         _ => {
             eprintln!("usage: harness seq|builder|selector|chanops");
             std::process::exit(2);
